@@ -12,7 +12,8 @@
                SIGWINCH
      inq       decoded input events waiting in the tty (the decoder's independence of read
                boundaries is C03; here a read takes a prefix of the waiting tokens), hup = the
-               other side is closed (read returns 0)
+               other side is closed (waiting input is discarded, a read returns 0, a write
+               fails with EIO - observed on the pty of this sandbox)
      saved / cur  the tty's line settings when opened / now
 
    One iteration of the loop is driven by a `round_env`: what the loop test sees of the clock,
@@ -87,9 +88,11 @@ Section PollLoop.
             (inq s ++ ts) (hup s) (saved s) (cur s) (g_owed_wake s) (g_owed_winch s)
             (g_arrived s ++ ts) (g_returned s)
     | MHup =>
+        (* the other side is closed: input still waiting in the tty is discarded by the kernel,
+           reads return 0, writes fail *)
         mkP (io s) (events s) (pipe s) (termsig s) (winch s) (sigpipe s) (sig_closed s)
-            (inq s) true (saved s) (cur s) (g_owed_wake s) (g_owed_winch s)
-            (g_arrived s) (g_returned s)
+            [] true (saved s) (cur s) (g_owed_wake s) (g_owed_winch s)
+            (firstn (length (g_arrived s) - length (inq s)) (g_arrived s)) (g_returned s)
     end.
 
   Definition arrive_all (s : pstate) (ms : list emove) : pstate := fold_left arrive ms s.
@@ -112,20 +115,14 @@ Section PollLoop.
   | PBlocked                      (* select sleeps: nothing ready, no delay *)
   | PMore.                        (* the schedule ended inside the loop *)
 
-  (* signal step: pending() drains the pipe, termination signals come first *)
+  (* signal step: pending() drains the pipe; every flagged signal is consumed (SIGWINCH queues a
+     Resize event), then a flagged termination signal makes poll return Err(Quit) *)
   Definition sig_step (s : pstate) : pstate + pstate (* inl = continue, inr = Err(Quit) *) :=
-    let s1 := mkP (io s) (events s) (pipe s) (termsig s) (winch s) false (sig_closed s) (inq s)
+    let s1 := mkP (io s) (events s) (pipe s) false false false (sig_closed s) (inq s)
                   (hup s) (saved s) (cur s) (g_owed_wake s) (g_owed_winch s) (g_arrived s)
                   (g_returned s) in
-    if termsig s1 then
-      inr (mkP (io s1) (events s1) (pipe s1) false (winch s1) false (sig_closed s1) (inq s1)
-               (hup s1) (saved s1) (cur s1) (g_owed_wake s1) (g_owed_winch s1) (g_arrived s1)
-               (g_returned s1))
-    else if winch s1 then
-      inl (push (mkP (io s1) (events s1) (pipe s1) false false false (sig_closed s1) (inq s1)
-                     (hup s1) (saved s1) (cur s1) (g_owed_wake s1) (g_owed_winch s1)
-                     (g_arrived s1) (g_returned s1)) EvResize)
-    else inl s1.
+    let s2 := if winch s then push s1 EvResize else s1 in
+    if termsig s then inr s2 else inl s2.
 
   (* waker step: read up to 1024 bytes, one Wake event if any byte was read *)
   Definition wake_step (s : pstate) : pstate :=
@@ -164,7 +161,7 @@ Section PollLoop.
   (* write step: `consume_with(|slice| tty.write(slice))` when the tty is reported writable *)
   Definition write_step (s0 : pstate) (r : round_env) (writable : bool) : pstate + perr :=
     if writable then
-      if r_wr_err r then inr Io
+      if r_wr_err r || hup s0 then inr Io
       else match r_accept r with
            | Some k => match poll_round (io s0) (KAccept k) with
                        | Ok t' => inl (upd_io s0 t')
@@ -190,38 +187,49 @@ Section PollLoop.
         end
     end.
 
-  (* the body of one iteration after the delay has been computed; `nodelay` = select(None) *)
+  Definition events_empty (s : pstate) : bool := match events s with [] => true | _ => false end.
+
+  (* the body of one iteration after the delay has been computed; `nodelay` = select(None), which
+     is only used when no event is queued (otherwise the delay is zero).  The result of a
+     completed iteration carries whether select reported the tty writable. *)
   Definition round_body (s : pstate) (r : round_env) (nodelay : bool)
-    : (pres * pstate) + pstate (* inl = poll is over; inr = next iteration *) :=
+    : (pres * pstate) + (pstate * bool) (* inl = poll is over; inr = next iteration *) :=
     let s0 := arrive_all s (r_before r) in
     (* ready flags: the snapshot select takes *)
     let want_write := negb (queue_empty s0) in
-    let writable := want_write && (match r_accept r with Some _ => true | None => r_wr_err r end) in
+    let writable := want_write && ((match r_accept r with Some _ => true | None => r_wr_err r end) || hup s0) in
     let sig_ready := sigpipe s0 in
     let wk_ready := 0 <? pipe s0 in
     let in_ready := (match inq s0 with [] => false | _ => true end) || hup s0 in
-    if negb (writable || sig_ready || wk_ready || in_ready) && nodelay then inl (PBlocked, s0)
+    if negb (writable || sig_ready || wk_ready || in_ready) && nodelay && events_empty s then inl (PBlocked, s0)
     else
       match write_step s0 r writable with
       | inr e => inl (PErr e, s0)
-      | inl s1 => reads s1 r sig_ready wk_ready in_ready
+      | inl s1 =>
+          match reads s1 r sig_ready wk_ready in_ready with
+          | inl x => inl x
+          | inr s7 => inr (s7, writable)
+          end
       end.
 
   (* the loop; `finite` = a timeout was given; one `round_env` per evaluation of the loop test *)
   Fixpoint poll_loop (finite first : bool) (s : pstate) (sched : list round_env)
     : pres * pstate * list round_env :=
-    if queue_empty s && negb (match events s with [] => true | _ => false end)
+    if queue_empty s && negb (events_empty s)
     then (pop_ret s, sched)                                   (* loop condition false *)
     else
       match sched with
       | [] => (PMore, s, [])
       | r :: rest =>
-          if finite && r_expired r && negb first then (pop_ret s, rest)     (* break *)
+          if finite && r_expired r && negb first then (pop_ret s, rest)     (* break: timeout *)
           else if r_eintr r then poll_loop finite first (arrive_all s (r_before r)) rest
           else
             match round_body s r (negb finite) with
             | inl (res, s') => (res, s', rest)
-            | inr s' => poll_loop finite false s' rest
+            | inr (s', writable) =>
+                (* an event is ready and the tty takes no more output right now *)
+                if negb (events_empty s') && negb writable then (pop_ret s', rest)
+                else poll_loop finite false s' rest
             end
       end.
 
@@ -233,8 +241,8 @@ Section PollLoop.
 
   (* ---------------------------------------------------------------- dispose *)
   (* frames_drop; queue the closing sequence (write errors ignored); poll with a one second
-     timeout until an error, the device attributes answer (`is_da`) or a timeout; close the
-     signal handler; tcsetattr(saved).  `tcsetattr` fails when the tty is gone (`hup`). *)
+     timeout until an error, the device attributes answer (`is_da`) or a timeout (the signal
+     handler having been closed and flagged signals forgotten first); tcsetattr(saved).  `tcsetattr` fails when the tty is gone (`hup`). *)
   Context (is_da : T -> bool) (closing : list A).
 
   Fixpoint dispose_loop (fuel : nat) (s : pstate) (sched : list round_env)
@@ -258,13 +266,14 @@ Section PollLoop.
     (* frames_drop: a panic is excluded by C16; modelled as "no change" *)
     let q1 := match clear_but_last (tq t) with Ok q => q | _ => tq t end in
     let q2 := write q1 closing in
-    let s1 := upd_io s (mkT q2 (tty t) (sent t)) in
+    let s0 := upd_io s (mkT q2 (tty t) (sent t)) in
+    (* signal_delivery.handle().close(); pending().for_each(drop): flagged signals are forgotten
+       (a Resize still owed is not delivered any more: the object is going away) *)
+    let s1 := mkP (io s0) (events s0) (pipe s0) false false false true (inq s0) (hup s0)
+                  (saved s0) (cur s0) (g_owed_wake s0) false (g_arrived s0) (g_returned s0) in
     match dispose_loop fuel s1 sched with
     | None => None
-    | Some (s2, _) =>
-        let s3 := mkP (io s2) (events s2) (pipe s2) (termsig s2) (winch s2) (sigpipe s2) true
-                      (inq s2) (hup s2) (saved s2) (cur s2) (g_owed_wake s2) (g_owed_winch s2)
-                      (g_arrived s2) (g_returned s2) in
+    | Some (s3, _) =>
         Some (if hup s3 then s3
               else mkP (io s3) (events s3) (pipe s3) (termsig s3) (winch s3) (sigpipe s3)
                        (sig_closed s3) (inq s3) (hup s3) (saved s3) (saved s3)
